@@ -39,6 +39,10 @@ var (
 	}
 )
 
+// errNoField tells that a scalar JSON value is not the value of a field, like one at the top level or in an array
+// at the top level
+var errNoField = newError(meta.ErrDismatchType, "json value doesn't belong to any field", nil)
+
 func decodeBinary(val string) ([]byte, error) {
 	return decodeBase64(val)
 }
@@ -192,6 +196,9 @@ func (self *visitorUserNode) OnBool(v bool) error {
 	if self.globalFieldDesc == nil && top.typ == arrStkType {
 		fieldDesc = top.state.fieldDesc
 	}
+	if fieldDesc == nil {
+		return errNoField
+	}
 
 	// packed list no need to write tag
 	if !fieldDesc.Type().IsList() {
@@ -221,6 +228,9 @@ func (self *visitorUserNode) OnString(v string) error {
 	fieldDesc := self.globalFieldDesc
 	if fieldDesc == nil && top != nil && top.Type().IsList() {
 		fieldDesc = top
+	}
+	if fieldDesc == nil {
+		return errNoField
 	}
 
 	if err = self.p.AppendTagByKind(fieldDesc.Number(), fieldDesc.Kind()); err != nil {
@@ -261,6 +271,9 @@ func (self *visitorUserNode) OnInt64(v int64, n json.Number) error {
 	// case PackedList(List<int32/int64/...), get fieldDescriptor from Stack
 	if self.globalFieldDesc == nil && top.typ == arrStkType {
 		fieldDesc = top.state.fieldDesc
+	}
+	if fieldDesc == nil {
+		return errNoField
 	}
 
 	// packed list no need to write tag
@@ -351,6 +364,9 @@ func (self *visitorUserNode) OnFloat64(v float64, n json.Number) error {
 
 	if self.globalFieldDesc == nil && top.typ == arrStkType {
 		fieldDesc = top.state.fieldDesc
+	}
+	if fieldDesc == nil {
+		return errNoField
 	}
 
 	// packed list no need to write tag
